@@ -24,6 +24,7 @@ import (
 	"strconv"
 	"strings"
 
+	"github.com/AdguardTeam/AdGuardHome/internal/configmigrate"
 	"github.com/AdguardTeam/AdGuardHome/internal/dhcpd"
 	"github.com/AdguardTeam/AdGuardHome/internal/filtering"
 	"github.com/AdguardTeam/AdGuardHome/internal/home"
@@ -50,7 +51,7 @@ func childMain(args []string) int {
 	runtime.LockOSThread()
 
 	fs := flag.NewFlagSet("child", flag.ContinueOnError)
-	kind := fs.String("kind", "", "config|leases|filter")
+	kind := fs.String("kind", "", "config|upgrade|leases|filter")
 	dir := fs.String("dir", "", "working directory")
 	size := fs.Int("size", 0, "wanted size of the file in bytes")
 	old := fs.Int("old", 1, "1: establish generation 0 before the first marker")
@@ -68,10 +69,14 @@ func childMain(args []string) int {
 	switch *kind {
 	case "config":
 		s = &configSaver{}
+	case "upgrade":
+		s = &upgradeSaver{}
 	case "leases":
 		s = &leaseSaver{}
 	case "filter":
 		s = &filterSaver{}
+	case "filterfail":
+		s = &filterFailSaver{}
 	default:
 		fmt.Fprintln(os.Stderr, "child: bad -kind")
 		return 3
@@ -195,6 +200,46 @@ func (s *configSaver) save(gen, _ int, calib string) error {
 	return home.VerifC14WriteConfig()
 }
 
+// ---- configuration file rewritten by the schema upgrade ----------------------
+
+// upgradeSaver: generation 0 is a configuration file of the previous schema
+// version; save 1 is the real loader (parseConfig), which upgrades the file and
+// writes it back; save 2 is an ordinary configuration write.
+type upgradeSaver struct {
+	configSaver
+	dir string
+}
+
+func (s *upgradeSaver) prepare(dir string) error {
+	s.dir = dir
+	return s.configSaver.prepare(dir)
+}
+
+func (s *upgradeSaver) save(gen, size int, calib string) error {
+	switch gen {
+	case 0:
+		if err := s.configSaver.save(0, size, calib); err != nil {
+			return err
+		}
+		data, err := os.ReadFile(s.path)
+		if err != nil {
+			return err
+		}
+		cur := fmt.Sprintf("schema_version: %d", configmigrate.LastSchemaVersion)
+		if !strings.Contains(string(data), cur) {
+			return fmt.Errorf("no %q in the written configuration", cur)
+		}
+		old := strings.Replace(string(data), cur, fmt.Sprintf("schema_version: %d", configmigrate.LastSchemaVersion-1), 1)
+		return os.WriteFile(s.path, []byte(old), 0o644)
+	case 1:
+		// A constant work directory: the upgrade stores paths derived from it in the
+		// file, and the file content must not depend on the run's directory.
+		return home.VerifC14ParseConfig("/nonexistent-verif-c14-workdir")
+	default:
+		return s.configSaver.save(gen, size, calib)
+	}
+}
+
 // ---- lease database --------------------------------------------------------
 
 type leaseSaver struct{ vs *dhcpd.VerifC14Server }
@@ -251,7 +296,27 @@ const filterURL = "http://lists.c14.example/list.txt"
 // 32 MiB refresh enumerable (the scanner accepts lines up to 64 KiB).
 const maxLine = 60000
 
-type fakeTransport struct{ body []byte }
+type fakeTransport struct {
+	body []byte
+	// cut, if positive, makes the body fail with io.ErrUnexpectedEOF after cut
+	// bytes (the connection breaks in the middle of the download).
+	cut int
+}
+
+// cutReader delivers data and then fails.
+type cutReader struct {
+	data []byte
+	err  error
+}
+
+func (r *cutReader) Read(p []byte) (n int, err error) {
+	if len(r.data) == 0 {
+		return 0, r.err
+	}
+	n = copy(p, r.data)
+	r.data = r.data[n:]
+	return n, nil
+}
 
 func (t *fakeTransport) RoundTrip(req *http.Request) (*http.Response, error) {
 	if req.URL.String() != filterURL {
@@ -261,9 +326,16 @@ func (t *fakeTransport) RoundTrip(req *http.Request) (*http.Response, error) {
 		Status: "200 OK", StatusCode: http.StatusOK,
 		Proto: "HTTP/1.1", ProtoMajor: 1, ProtoMinor: 1,
 		Header:        http.Header{"Content-Type": []string{"text/plain"}},
-		Body:          io.NopCloser(bytes.NewReader(t.body)),
+		Body:          t.bodyReader(),
 		ContentLength: int64(len(t.body)), Request: req,
 	}, nil
+}
+
+func (t *fakeTransport) bodyReader() io.ReadCloser {
+	if t.cut > 0 && t.cut < len(t.body) {
+		return io.NopCloser(&cutReader{data: t.body[:t.cut], err: io.ErrUnexpectedEOF})
+	}
+	return io.NopCloser(bytes.NewReader(t.body))
 }
 
 type filterSaver struct {
@@ -343,6 +415,26 @@ func (s *filterSaver) calibrate(size int) (string, int, error) {
 		size = 2
 	}
 	return "-", size, nil
+}
+
+// filterFailSaver: save 1 is a refresh whose download breaks half-way (the
+// stored list must stay the previous version at every instant and afterwards);
+// save 2 is a successful refresh.
+type filterFailSaver struct{ filterSaver }
+
+func (s *filterFailSaver) save(gen, size int, calib string) error {
+	if gen != 1 {
+		return s.filterSaver.save(gen, size, calib)
+	}
+	s.tr.body = filterBody(gen, size)
+	s.tr.cut = len(s.tr.body) / 2
+	defer func() { s.tr.cut = 0 }()
+	updated, _, ok := s.d.VerifC14Refresh()
+	if !ok || updated != 0 {
+		// Reported by the parent: the destination differs from the old version.
+		return nil
+	}
+	return nil
 }
 
 func (s *filterSaver) save(gen, size int, _ string) error {
